@@ -1,6 +1,7 @@
 import GoSup.Model.Planner
 import GoSup.Model.Cluster
 import GoSup.Spec.C16
+import GoSup.Proofs.Planner
 /-!
 # C16 — property theorems (httpcluster diff planner and update execution)
 -/
@@ -39,6 +40,70 @@ theorem processExisting_cases (id : String) (old : Entry) (c : Nat) :
   · intro h; simp [processExisting, h]
   · intro h1 h2; simp [processExisting, h1, h2]
   · intro h1 h2; simp [processExisting, h1, Option.isNone_iff_eq_none.mp h2]
+
+/-! ## the planner under NoClash, for maps of any size and any iteration order
+
+`cur` is the list of current entries **in the order the Go map happened to be iterated**; the
+theorems hold for every such order, i.e. the plan does not depend on it. -/
+
+/-- **Unchanged entries are untouched**: an entry whose desired configuration equals its current one is
+carried into the plan as it is (same runner instance), with no action. -/
+theorem plan_unchanged (cur : Entries) (des : List (String × Nat)) (h : Wf cur des) (k : String) (e : Entry)
+    (hmem : (k, e) ∈ cur) (hsame : lookupD des k = some e.cfg) :
+    get (buildPending cur des) k = some { e with action := .none } := by
+  obtain ⟨l1, l2, hsplit⟩ := List.append_of_mem hmem
+  rw [get_pending_owned h hsplit k (Or.inl rfl)]
+  simp only [contrib, processExisting, hsame, beq_self_eq_true, if_true, putAll, List.foldl_cons, List.foldl_nil]
+  rw [get_put]; simp
+
+/-- **Changed and running**: the old instance is handed to a stop action (under `id:stop`) and the id gets a
+fresh start entry with the desired configuration. -/
+theorem plan_changed_running (cur : Entries) (des : List (String × Nat)) (h : Wf cur des) (k : String) (e : Entry)
+    (c inst : Nat) (hmem : (k, e) ∈ cur) (hwant : lookupD des k = some c) (hne : e.cfg ≠ c) (hrun : e.runner = some inst) :
+    get (buildPending cur des) (k ++ ":stop") = some { e with action := .stop }
+    ∧ get (buildPending cur des) k = some { id := k, cfg := c, runner := none, action := .start } := by
+  obtain ⟨l1, l2, hsplit⟩ := List.append_of_mem hmem
+  have hne' : (e.cfg == c) = false := by simpa using hne
+  constructor
+  · rw [get_pending_owned h hsplit _ (Or.inr rfl)]
+    simp only [contrib, processExisting, hwant, hne', hrun, Option.isSome_some, if_true, putAll, List.foldl_cons,
+      List.foldl_nil, Bool.false_eq_true, if_false]
+    rw [get_put, get_put]
+    simp [(ne_append_stop k).symm]
+  · rw [get_pending_owned h hsplit _ (Or.inl rfl)]
+    simp only [contrib, processExisting, hwant, hne', hrun, Option.isSome_some, if_true, putAll, List.foldl_cons,
+      List.foldl_nil, Bool.false_eq_true, if_false]
+    rw [get_put]; simp
+
+/-- **Removed and running**: the instance is handed to a stop action under its id. -/
+theorem plan_removed_running (cur : Entries) (des : List (String × Nat)) (h : Wf cur des) (k : String) (e : Entry)
+    (inst : Nat) (hmem : (k, e) ∈ cur) (hgone : lookupD des k = none) (hrun : e.runner = some inst) :
+    get (buildPending cur des) k = some { e with action := .stop } := by
+  obtain ⟨l1, l2, hsplit⟩ := List.append_of_mem hmem
+  rw [get_pending_owned h hsplit _ (Or.inl rfl)]
+  simp only [contrib, processExisting, hgone, hrun, Option.isSome_some, if_true, putAll, List.foldl_cons, List.foldl_nil]
+  rw [get_put]; simp
+
+/-- **Nothing leaks**: every running instance that is not kept (its id was removed or its configuration
+changed) is the runner of some stop entry of the plan — whatever the map sizes and iteration order. -/
+theorem plan_no_leak (cur : Entries) (des : List (String × Nat)) (h : Wf cur des) (k : String) (e : Entry) (inst : Nat)
+    (hmem : (k, e) ∈ cur) (hrun : e.runner = some inst) (hnot : lookupD des k ≠ some e.cfg) :
+    ∃ q ∈ buildPending cur des, q.2.action = .stop ∧ q.2.runner = some inst := by
+  cases hw : lookupD des k with
+  | none =>
+    exact ⟨_, mem_of_get (plan_removed_running cur des h k e inst hmem hw hrun), rfl, hrun⟩
+  | some c =>
+    have hne : e.cfg ≠ c := fun heq => hnot (by rw [hw, heq])
+    exact ⟨_, mem_of_get (plan_changed_running cur des h k e c inst hmem hw hne hrun).1, rfl, hrun⟩
+
+/-- the hypotheses are satisfiable by a non-trivial input, and the conclusion is computed there -/
+example :
+    let cur : Entries := [("b", { id := "b", cfg := 1, runner := some 11, action := .none }),
+                          ("a", { id := "a", cfg := 1, runner := some 10, action := .none })]
+    let des : List (String × Nat) := [("a", 2), ("c", 3)]
+    (keysOf cur).Nodup ∧ noClash cur des = true
+    ∧ (toStop (buildPending cur des)).length = 2 ∧ (toStart (buildPending cur des)).length = 2 := by
+  decide
 
 /-- **The full statement is false** (finding C16-F1): with ids `a` and `a:stop` the stop entry of
 the changed server `a` is overwritten — its running instance is never stopped -/
